@@ -212,6 +212,31 @@ pub fn run_batch(prop: &str, seed: u64, from: u64, to: u64, workers: u64, hashes
         let mut child = cmd.spawn().map_err(|e| format!("spawn worker: {}", e))?;
         let stdout = child.stdout.take().unwrap();
         let stderr = child.stderr.take().unwrap();
+        let child = std::sync::Arc::new(std::sync::Mutex::new(child));
+        let last_activity = std::sync::Arc::new(std::sync::atomic::AtomicU64::new(now_secs()));
+        let done_flag = std::sync::Arc::new(std::sync::atomic::AtomicBool::new(false));
+        let hung_flag = std::sync::Arc::new(std::sync::atomic::AtomicBool::new(false));
+        {
+            // watchdog: a worker that reports nothing for HANG_SECS is stuck inside one run
+            let child = child.clone();
+            let last_activity = last_activity.clone();
+            let done_flag = done_flag.clone();
+            let hung_flag = hung_flag.clone();
+            std::thread::spawn(move || loop {
+                std::thread::sleep(std::time::Duration::from_millis(500));
+                if done_flag.load(std::sync::atomic::Ordering::SeqCst) {
+                    break;
+                }
+                let idle = now_secs().saturating_sub(last_activity.load(std::sync::atomic::Ordering::SeqCst));
+                if idle > hang_secs() {
+                    hung_flag.store(true, std::sync::atomic::Ordering::SeqCst);
+                    if let Ok(mut c) = child.lock() {
+                        let _ = c.kill();
+                    }
+                    break;
+                }
+            });
+        }
         let h = std::thread::spawn(move || {
             let errh = std::thread::spawn(move || {
                 let mut s = String::new();
@@ -242,6 +267,7 @@ pub fn run_batch(prop: &str, seed: u64, from: u64, to: u64, workers: u64, hashes
                     Ok(l) => l,
                     Err(_) => break,
                 };
+                last_activity.store(now_secs(), std::sync::atomic::Ordering::SeqCst);
                 let (tag, rest) = match line.split_once(' ') {
                     Some(x) => x,
                     None => continue,
@@ -314,14 +340,18 @@ pub fn run_batch(prop: &str, seed: u64, from: u64, to: u64, workers: u64, hashes
                     _ => {}
                 }
             }
-            let status = child.wait();
+            done_flag.store(true, std::sync::atomic::Ordering::SeqCst);
+            let status = child.lock().map(|mut c| c.wait().map(|s| s.to_string())).ok();
             let err = errh.join().unwrap_or_default();
             if !finished {
+                let hung = hung_flag.load(std::sync::atomic::Ordering::SeqCst);
                 let why = format!(
-                    "worker for runs {}..{} died ({:?}) while run {:?} was in flight; stderr: {}",
+                    "{}worker for runs {}..{} {} ({:?}) while run {:?} was in flight; stderr: {}",
+                    if hung { "HUNG: " } else { "" },
                     a,
                     b,
-                    status.map(|s| s.to_string()),
+                    if hung { "made no progress and was killed" } else { "died" },
+                    status,
                     last_begun,
                     err.chars().take(600).collect::<String>()
                 );
@@ -382,6 +412,19 @@ pub fn process_history_window(prop: &str, seed: u64, run: u64) -> Option<(u64, u
         }
         back *= 2;
     }
+}
+
+fn now_secs() -> u64 {
+    std::time::SystemTime::now()
+        .duration_since(std::time::UNIX_EPOCH)
+        .map(|d| d.as_secs())
+        .unwrap_or(0)
+}
+
+/// Seconds without any report after which a worker is considered stuck inside one run. (Wall
+/// clock is read by the supervisor only, never by anything that is logged or hashed.)
+fn hang_secs() -> u64 {
+    std::env::var("DNSSIM_HANG_SECS").ok().and_then(|s| s.parse().ok()).unwrap_or(90)
 }
 
 pub fn ncpu() -> u64 {
@@ -451,6 +494,24 @@ pub fn replay_value(prop: &str, lane: &str, scenario: &Value, verbose: bool) -> 
         "C" => crate::lane_c::replay(scenario, verbose),
         "T" => crate::lane_t::replay(prop, scenario, verbose),
         "M" => crate::miri::replay(prop, scenario),
+        "G" => {
+            // regenerate (seed, run) in a child; reproduced if it hangs again
+            let g = &scenario["regenerate"];
+            let seed = g["seed"].as_u64().unwrap_or(1);
+            let run = g["run"].as_u64().unwrap_or(0);
+            match run_batch(prop, seed, run, run + 1, 1, false) {
+                Ok(a) if a.deaths.iter().any(|(_, w)| w.starts_with("HUNG")) => Ok(Some(crate::exec::Violation {
+                    props: vec![match prop { "C08" => "C08", "C09" => "C09", "C10" => "C10", _ => "C11" }],
+                    clause: "operation-does-not-return".into(),
+                    op: "history".into(),
+                    key: String::new(),
+                    detail: format!("run {} of seed {} hangs again", run, seed),
+                    step: 0,
+                })),
+                Ok(_) => Ok(None),
+                Err(e) => Err(e),
+            }
+        }
         "P" => {
             let seed = scenario["seed"].as_u64().unwrap_or(1);
             let from = scenario["from"].as_u64().unwrap_or(0);
@@ -584,6 +645,18 @@ pub fn cmd_check(prop: &str, tier: &str, seed: u64) -> i32 {
             } else {
                 death_violations.push(rep);
             }
+        } else if why.starts_with("HUNG") && matches!(prop, "C08" | "C09" | "C10" | "C11") {
+            // an API operation of the history never returned
+            let v = crate::exec::Violation {
+                props: vec![match prop { "C08" => "C08", "C09" => "C09", "C10" => "C10", _ => "C11" }],
+                clause: "operation-does-not-return".into(),
+                op: "history".into(),
+                key: String::new(),
+                detail: format!("an operation of the generated history made no progress for {} s: {}", hang_secs(), why.chars().take(200).collect::<String>()),
+                step: 0,
+            };
+            death_violations.push(json!({"run": run, "seed": seed, "lane": "G", "violation": lanes::violation_json(&v),
+                "scenario": {"regenerate": {"property": prop, "seed": seed, "run": run}}}));
         } else {
             eprintln!("harness error: {}", why);
             exit = 2;
